@@ -1065,6 +1065,11 @@ func (e *Env) modLocs(x Expr) []modLoc {
 			tn := x.Args[0].(*EStr).V
 			t := g.P.typeByName(tn)
 			if t == nil {
+				if o, ok := types.Universe.Lookup(tn).(*types.TypeName); ok {
+					t = o.Type()
+				}
+			}
+			if t == nil {
 				e.fail("unknown type %s", tn)
 			}
 			return []modLoc{{heap: elemHeapName(t), sort: g.sortOf(t), elem: true, g: t}}
